@@ -113,10 +113,60 @@ def _filter_map_closure(lib, cdef, captured):
                         tests.append((c[1], [frozenset(subst(x, mapping) for x in a) for a in c[2]]))
                         found = True
             if not found:
-                return None
+                return _filter_map_closure_paths(lib, cb, co, mapping)
         else:
-            return None
+            return _filter_map_closure_paths(lib, cb, co, mapping)
     return kept, tests
+
+
+def _filter_map_closure_paths(lib, cb, co, mapping):
+    """The same, decided path by path (a closure whose answer is assembled by combinators — `r.map(|v| cond.then_some(v))
+    .transpose()` — once these are written out as the case analyses they stand for): every path answers Some(value) or None,
+    and a None path has taken the true side of a boolean test that is a call (the recorded condition)."""
+    from .analysis import strip_through
+    from .decision import Undecided, Walker
+    br = Branches(cb, co)
+    kept = set()
+    tests = []
+    try:
+        w = Walker(cb, co, max_steps=3000)
+        paths = w.walk()
+    except Undecided:
+        return None
+    for path, leaf in paths:
+        res = w.result_on_path(path)
+        if not res:
+            return None
+        for t in res:
+            t = strip_through(t)
+            if t[0] == "agg" and t[1] == "std::option::Option::Some" and len(t[2]) == 1:
+                kept |= {subst(x, mapping) for x in t[2][0]}
+            elif t[0] == "agg" and t[1] == "std::option::Option::None":
+                po = Origins(cb, lib, only_blocks=set(path))
+                pbr = Branches(cb, po)
+                found = False
+                for i, blk in enumerate(path[:-1]):
+                    be = br.bool_edges(blk)
+                    if not be:
+                        continue
+                    for c in pbr.cond(blk):
+                        neg = False
+                        while c[0] == "un" and c[1] == "Not":
+                            c = c[2]
+                            neg = not neg
+                        if c[0] == "call" and (path[i + 1] == (be[1] if neg else be[0])):
+                            tests.append((c[1], [frozenset(subst(x, mapping) for x in a) for a in c[2]]))
+                            found = True
+                if not found:
+                    return None
+            else:
+                return None
+    # one record per distinct test
+    uniq = []
+    for t in tests:
+        if t not in uniq:
+            uniq.append(t)
+    return kept, uniq
 
 
 def _filter_predicate(lib, cdef, fallible, value):
